@@ -58,6 +58,7 @@ Inv_C11 == Acc => P_C11_Canonical(SDoc, SPk, 0) /\ P_C11_Refs(SDoc, SPk, Index(S
 Inv_C12 == Acc => P_C12_Cells(vLines, SDoc, Index(SDoc)) /\ P_C12_Rect(SDoc, Index(SDoc))
 Inv_C13 == Acc => P_C13_DocStrings(vLines, vToks, SDoc, Index(SDoc))
 Inv_C14 == vPs.done => P_C14_Once(vPs.bs.errs)
+Inv_C14_Iff == vPs.done => P_C14_Iff(vLines, RunAll(vLines, "en", 0, CapOf(Mode)), Rejected(vPs))
 Inv_C18 == /\ (Acc => P_C18_Accepted(vLines, vToks))
            /\ (vPs.done => P_C18_Partition(vLines, vToks, vPs.bs.errs, vPs.bs.cap))
 Constraint == Emit /\ Bound
